@@ -153,8 +153,12 @@ def build_scenarios(tier, seed, classes, leads):
             add("crash." + gate, kinds=NOLIST, snapcount=rng.randint(5, 20), nwrites=400, min_after=4,
                 victims=[{"node": nd, "gate": "%s#%d" % (gate, rng.randint(60, 160) if gate in LOOP_GATES else rng.randint(12, 40))} for nd in vs],
                 entry=vs[0], then=rng.choice(["victims", "all"]))
+    if tier == "thorough":      # every gate once more on a single-node cluster (the node is the quorum)
+        for gate in LOOP_GATES + CMD_GATES:
+            add("crash." + gate, nodes=1, nwrites=300, min_after=3, big=rng.choice([0, 0, 1200]),
+                victims=[{"node": 0, "gate": "%s#%d" % (gate, rng.randint(40, 120) if gate in LOOP_GATES else rng.randint(10, 40))}])
     # -- kill -9 at random instants under load (the stages without a gate of their own are only reached this way)
-    for i in range(2 if tier == "quick" else 10):
+    for i in range(2 if tier == "quick" else 24):
         size = 1 + i % 3
         vs = rng.sample(range(3), size)
         add("kill.under_load", nwrites=600, load_s=6, min_after=4, entry=rng.randrange(3),
